@@ -133,15 +133,30 @@ CHECKS.update({
              "that float rounding (outside the claim) does not show. Renames are not documented as reversible and are not in the "
              "alphabet. " + NOTE_COMMON, ref="4/C03"),
     "C10": dict(
-        text="Identifier-escaping kernel of the SBML reader/writer only (_f_*/_f_*_rev, _escape_non_alphanum, _number_to_chr, _clip): "
-             "CrossHair explores the real functions on a symbolic str (len<=5) per condition (round trip, SId validity, reachability "
-             "twin) and vsym case-splits every string of length <=4 (thorough 5) over a class alphabet with one representative per "
-             "behavioural class of the two regexes; injectivity on all pairs of length <=2 (thorough 3).",
-        note="NOT claimed: the libsbml document layer (validity of the written document, bounds, stoichiometry, objective, gene "
-             "associations, notes, annotations, groups) - libsbml is C++ behind SWIG, no symbolic value survives a call. CrossHair's "
-             "'Not confirmed' is reported as 'no counterexample within the budget', not as exhaustive. Known finding: ids in which an "
-             "underscore meets digits. " + NOTE_COMMON, ref="4/C10",
-        technique="CrossHair symbolic strings + vsym exhaustive class-alphabet case split of the real escaping functions"),
+        text="(1) Document layer: write_sbml_model / read_sbml_model through the real _model_to_sbml, _create_bound, _create_parameter, "
+             "_sbase_notes_dict, _sbase_annotations, _sbml_to_model, _parse_notes_dict, _parse_annotations with symbolic stoichiometric "
+             "coefficients, bounds (finite / infinite / zero / equal to the configured defaults, defaults +-1000 or +-10) and objective "
+             "coefficient, direction, charges, formulas, names, compartments, notes, annotations (incl. an identifier contained in "
+             "another), gene rules, groups: export and import do not fail, writing leaves the model alone, the full observation incl. "
+             "the LP is proved equal after the round trip and a second round trip is the identity.  (2) Third-party documents built "
+             "through the libsbml API in shapes the writer never produces (species referenced twice on one side or on both sides, "
+             "shared / own / missing bound parameters, two flux objectives, minimisation) with symbolic stoichiometries, parameter "
+             "values and objective coefficients: the loaded stoichiometry is the net of the references, bounds are the parameter values, "
+             "objective coefficients and direction as in the document.  On symbolic paths the name libsbml in cobra.io.sbml is bound "
+             "to a documented pure-Python stand-in of the object model (vlib/fakesbml.py); the witnesses of the paths are replayed with "
+             "the real libsbml, where the written document is also put to validate_sbml_model.  (3) Identifier-escaping kernel "
+             "(_f_*/_f_*_rev, _escape_non_alphanum, _number_to_chr, _clip): CrossHair on a symbolic str (len<=5) per condition (round "
+             "trip, SId validity, reachability twin) and a vsym case split over every string of length <=4 (thorough 5) of a class "
+             "alphabet; injectivity on all pairs of length <=2 (thorough 3).",
+        note="The stand-in is part of the claim for (1) and (2): identifier / SId / metaid / SBO / formula validation, unset values, "
+             "CVTerm merging, infix gene associations, package plug-ins as observed on libsbml 5.20 (DESIGN 10.5); the XML text layer "
+             "(17-digit number formatting, escaping), validity of the written document and the libsbml parser are exercised on witness "
+             "replays only.  Identifiers inside documents are plain (the escaping kernel is (3)); notes values are plain strings; "
+             "model history / creators, kinetic-law legacy encodings, fbc-v1 conversion and files on disk are outside.  CrossHair's "
+             "'Not confirmed' is reported as 'no counterexample within the budget', not as exhaustive.  Known finding: ids in which an "
+             "underscore meets digits. " + NOTE_COMMON, ref="10.5",
+        technique="dynamic symbolic execution of the real SBML reader/writer on z3 (vsym) with a documented libsbml stand-in, witnesses "
+                  "replayed on the real libsbml; CrossHair symbolic strings + exhaustive class-alphabet case split for the id escaping"),
     "C11": dict(
         text="Bounded symbolic execution of model_to_dict/model_from_dict and the JSON / YAML / pickle / deepcopy paths (string and "
              "file-handle variants, sort on/off, non-default Configuration().bounds) with symbolic stoichiometry, bounds (infinities by "
